@@ -149,3 +149,14 @@ def pristine(fn, *args, timeout: float = 600):
     left by one evaluation (caches, registries, default-argument objects) cannot leak into the next one."""
     from .driver import in_fork
     return in_fork(fn, *args, timeout=timeout)
+
+
+def set_debug_logging() -> None:
+    """Ambient configuration of the hosting process: the root logger at DEBUG (what fcp's own setup_logging() does),
+    with the records swallowed. Only ever called inside a run's own fork / interpreter."""
+    import logging
+    setup_repo_path()          # (it silences logging when first called: must not come after this)
+    logging.disable(logging.NOTSET)
+    root = logging.getLogger()
+    root.handlers[:] = [logging.NullHandler()]
+    root.setLevel(logging.DEBUG)
